@@ -303,7 +303,7 @@ def run(ctx):
     _cm19.import_clauses(ctx, res, 'C10', ['C10.a', 'C10.b'], 'C19', 'C19.l', 'R-SIBLING', 'lookup filter and listing prefixes select exactly the category\'s recordings', floor=4)
     _cm19.import_clauses(ctx, res, 'C08', ['C08.c'], 'C19', 'C19.m', 'R-CONTAIN', 'the worker keeps serving: a selected recording is replayed, not failed for a worker that left', floor=3)
     from . import common as _r7
-    _r7.import_clauses(ctx, res, 'C08', ['C08.a'], 'C19', 'C19.n', 'R-TYPESTATE', 'every selected recording gets exactly one comparison from the equalizer', floor=1)
+    _r7.import_clauses(ctx, res, 'C08', ['C08.a', 'C08.g', 'C08.h'], 'C19', 'C19.n', 'R-TYPESTATE', 'every selected recording gets exactly one comparison from the equalizer', floor=1)
     return res
 
 
